@@ -30,6 +30,11 @@ CLAIMED['C11'] = ('bounded symbolic execution of clang LLVM IR of backup over th
 CLAIMED['C04'] = ('bounded symbolic execution of clang LLVM IR of nearest_neighbour + z3 IEEE floating-point theory (bit-precise)',
     'For every float (|x|<2^23) and double (|x|<2^52) coordinate in (-0.5, E-0.5) the delegated lattice point is within 1/2 per component, decided bit-precisely including one ulp either side of every half-integer; N=1..4.', '3.C04')
 
+CLAIMED['C03'] = ('bounded symbolic execution of clang LLVM IR of linear<probe> + z3: exact-reading (real arithmetic) identity with own polynomial normal form, IEEE FP theory for cell choice and lattice exactness',
+    'Identity of the exact reading of the real instructions with the N-linear interpolant for all integer cells, all real fractional parts and all real lattice values (uninterpreted), N<=4 quick/5 thorough, M independent; exactly the 2^N corners are queried; hull clause N<=2; cell choice and lattice exactness bit-precise. The rounding clause is an operation-count bound reported from the IR, not solved.', '3.C03')
+CLAIMED['C09'] = ('bounded symbolic execution of clang LLVM IR of algebra::affine and the affine layer + z3 (exact-reading real arithmetic, polynomial normal form; bit-vectors for the factories)',
+    'A*x == Ax+t, (A*B)*v == A*(B*v), product matrix, chains of up to 4 transforms, textbook factories, and the layer querying its backend once at Ax+t: for all real matrices and vectors, N=1..4, float and double.', '3.C09')
+
 NA = {
     'C13': 'decided by the C++ type checker (overload resolution, constraints, template instantiation): there is no IR to execute and no SMT encoding of C++ semantic analysis within reach; enumerating and compiling stacks would be a different technique (DESIGN.md section 5)',
 }
